@@ -53,6 +53,7 @@ func CDecompress(src []byte, sizeD int) (dst cmem.CArray, err error) {
 	size := int(C.qlz_decompress(c_src, c_dst, c_buf))
 	if size != sizeD {
 		err = fmt.Errorf("fail to alloc for decompress, size %d != %d", sizeD, size)
+		dst.Free() // do not hand out (and leak) a buffer together with an error
 		return
 	}
 	dst.Body = dst.Body[:size]
